@@ -97,6 +97,10 @@ type printFn func(format string, v ...interface{})
 // or CoalesceValues. Coalescing removes null values and their keys in some
 // situations while merging keeps the null values.
 func coalesce(printf printFn, ch *chart.Chart, dest map[string]interface{}, prefix string, merge bool) (map[string]interface{}, error) {
+	if ch == nil {
+		// a release record without a chart: there is nothing to coalesce with
+		return dest, nil
+	}
 	coalesceValues(printf, ch, dest, prefix, merge)
 	return coalesceDeps(printf, ch, dest, prefix, merge)
 }
@@ -112,7 +116,7 @@ func coalesceDeps(printf printFn, chrt *chart.Chart, dest map[string]interface{}
 		}
 		if dv, ok := dest[subchart.Name()]; ok {
 			dvmap := dv.(map[string]interface{})
-			subPrefix := concatPrefix(prefix, chrt.Metadata.Name)
+			subPrefix := concatPrefix(prefix, chrt.Name())
 			// Get globals out of dest and merge them into dvmap.
 			coalesceGlobals(printf, dvmap, dest, subPrefix, merge)
 			// Now coalesce the rest of the values.
@@ -193,7 +197,7 @@ func copyMap(src map[string]interface{}) map[string]interface{} {
 //
 // Values in v will override the values in the chart.
 func coalesceValues(printf printFn, c *chart.Chart, v map[string]interface{}, prefix string, merge bool) {
-	subPrefix := concatPrefix(prefix, c.Metadata.Name)
+	subPrefix := concatPrefix(prefix, c.Name())
 
 	// Using c.Values directly when coalescing a table can cause problems where
 	// the original c.Values is altered. Creating a deep copy stops the problem.
